@@ -56,6 +56,7 @@ func main() {
 		job.MaxSteps = 600
 	}
 	obs.LabelHook = vsched.SetLabel
+	vsched.StartPoints = job.StartPoints
 	rf, err := os.Create(os.Args[2])
 	if err != nil {
 		fmt.Fprintln(os.Stderr, err)
